@@ -34,8 +34,10 @@ import (
 // is run on (a) honest serialisations produced by the node's own encoders from
 // generated values, (b) structure-aware mutations of them — every integer
 // field of the encoder's write log replaced by boundary values, truncation at
-// every field boundary, bit flips, byte sweeps, splices, version sweeps — and
-// (c) short random strings.
+// every field boundary, bit flips, byte sweeps, splices, version sweeps — (c)
+// short random strings and (d) grown byte fields (a length-prefixed field that
+// really carries one or more 32 KiB read chunks, claims megabytes and ends
+// early).
 //
 // Oracle: (1) a panic (or the death of the process) is a violation; (2) the
 // heap bytes allocated during one decode call (runtime.MemStats.TotalAlloc
@@ -73,7 +75,7 @@ func init() {
 	}
 	kit.Register(&kit.Spec{
 		ID:     "C02",
-		Rule:   "per decoder entry point (payload type x version byte, transaction type, block/header/aux-pow/confirm containers, every P2P and DPoS message body, on-disk decoders): honest serialisations of reflect-generated values written by the node's own encoders; each integer field of the encoder's write log replaced by boundary values 0,1,2,0xfc,0xfd,10000,50000,0xffff,2^16,2^18,2^20 and, where those did not already amplify, 2^31,2^32-1,2^32,2^63,2^64-1; truncation at every field boundary; bit flips; byte sweeps; splices; payload version sweep 0..255; short random strings. distinct = distinct (decoder, version, input bytes); non-trivial = the honest input, or a mutation that leaves at least the first field of an honest input intact (so the decoder gets past its first read)",
+		Rule:   "per decoder entry point (payload type x version byte, transaction type, block/header/aux-pow/confirm containers, every P2P and DPoS message body, on-disk decoders): honest serialisations of reflect-generated values written by the node's own encoders; each integer field of the encoder's write log replaced by boundary values 0,1,2,0xfc,0xfd,10000,50000,0xffff,2^16,2^18,2^20 and, where those did not already amplify, 2^31,2^32-1,2^32,2^63,2^64-1; truncation at every field boundary; bit flips; byte sweeps; splices; payload version sweep 0..255; short random strings; grown byte fields: up to 3 (6) length-prefixed byte fields per template filled with 32 KiB-1 .. 100 KiB of data while the prefix claims 1, 8, 12 or 16 MiB (or the real length minus nothing / plus the rest of the template as an honest grown value) and the input ends there. distinct = distinct (decoder, version, input bytes); non-trivial = the honest input, or a mutation that leaves at least the first field of an honest input intact (so the decoder gets past its first read)",
 		Shards: func(tier string) int { return 16 },
 		// workers are single-threaded sub-processes; keep the machine share small
 		Parallel: 4,
@@ -86,7 +88,7 @@ func init() {
 			return 2400
 		},
 		Require: []string{"decoders", "honest_decoded", "mut_count_cases", "mut_truncate_cases",
-			"mut_bitflip_cases", "mut_random_cases", "mut_version_sweep_cases", "mut_huge_cases", "result_err", "result_ok",
+			"mut_bitflip_cases", "mut_random_cases", "mut_version_sweep_cases", "mut_huge_cases", "mut_grown_field_cases", "grown_honest_decoded", "result_err", "result_ok",
 			"families:payload", "families:tx", "families:container", "families:p2pmsg", "families:dposmsg", "families:disk"},
 		Assumptions: []string{
 			"allocation is measured as the runtime.MemStats.TotalAlloc delta around one decode call in a worker process that runs cases sequentially; the bound 64 KiB + 256*len(input) is checked to sit at least 8x above the largest allocation observed for honest inputs (calibration gauges in the counters)",
@@ -796,6 +798,43 @@ func (w *c02Worker) run() {
 			}
 		}
 		w.eval("mut_random_cases", c02RandomBytes(r), ver, "random", false)
+	}
+	// ---- grown byte fields: an honest value whose length-prefixed byte field
+	// really carries one or more read chunks (32 KiB .. 100 KiB), announces up
+	// to the largest field limit (16 MiB) and ends early. Own random stream, so
+	// the cases above are the same with and without this family. ----
+	rg := c02Rand(w.spec.Seed, d.name+"/grown")
+	filler := make([]byte, 100<<10)
+	rg.Read(filler)
+	perTemplate := w.n(3, 6)
+	for ti, t := range tmpls {
+		if ti >= w.n(5, 10) {
+			break
+		}
+		vfs := c02VarFields(t)
+		// real byte fields first, then zero prefixes; a random choice among each
+		rg.Shuffle(len(vfs), func(i, j int) { vfs[i], vfs[j] = vfs[j], vfs[i] })
+		sort.SliceStable(vfs, func(i, j int) bool { return vfs[i].matched && !vfs[j].matched })
+		if len(vfs) > perTemplate {
+			vfs = vfs[:perTemplate]
+		}
+		for _, vf := range vfs {
+			amplified := false
+			for _, g := range c02GrownCases {
+				if amplified && !g.withTail {
+					w.skip("mut_count_skipped_after_amplifier")
+					continue
+				}
+				in := c02Grow(t, vf, g, filler)
+				before := a.Counters["result_ok"]
+				if w.eval("mut_grown_field_cases", in, t.ver, fmt.Sprintf("t%d:grown@%d:%s", ti, vf.off, g.name), vf.off > 0) {
+					amplified = true
+				}
+				if g.withTail && a.Counters["result_ok"] > before {
+					a.inc("grown_honest_decoded")
+				}
+			}
+		}
 	}
 }
 
